@@ -42,6 +42,17 @@ theorem wiring_as_modelled :
     ∧ halfStepRows = (0, 1) := by
   decide
 
+/-- The model takes the half-step propagators `A k`, `B k` and their derivatives as functions of
+    the step alone, i.e. of `(dt, parameters[2k], parameters[2k+1])` — not of what the system
+    object was used for before.  That is sound only if every cache inside
+    `ParameterizedSystem.get_propagators / halfstep_propagator_derivative /
+    get_propagator_derivatives` is keyed by everything the cached value can depend on (the
+    parameters of the closure AND of the enclosing factory, e.g. `dt`).  The list of caches is
+    regenerated from the source; at present it is empty. -/
+theorem propagator_memo_keys_complete :
+    ∀ s ∈ memoSites, ∀ v ∈ s.dependsOn, v ∈ s.keyVars := by
+  decide
+
 /-! ### (1) exact multilinearity: the adjoint identity, any number of environments -/
 
 /-- `adjoint_exact`, first half step.  For every number of steps `N`, every step `k < N`, every
